@@ -524,8 +524,10 @@ func (x *Exec) schedule(t *thread) {
 			x.freeFire = 0
 		}
 		if x.idleDue && len(free) > 0 && len(paid) > 0 {
+			// the running threads only repeat themselves: continuing them is not an alternative,
+			// the earliest timer/deadline fires (the other armed ones remain paid alternatives)
 			paid[0].cost = costFree
-			cands = append([]cand{paid[0]}, append(cands, paid[1:]...)...)
+			cands = append([]cand{}, paid...)
 			x.IdleFires++
 		} else {
 			cands = append(cands, paid...)
